@@ -212,6 +212,8 @@ def build_world(ck, work, quick):
         files.append(("rar", base + b".rar", [], 0))
         put(base + b".short.mo3", b"MO3" + bytes(60))
         files.append(("mo3short", base + b".short.mo3", [], 0))
+        put(base + b".tiny.mo3", b"MO3" + bytes(10))
+        files.append(("mo3short", base + b".tiny.mo3", [], 0))
         put(b"-x" + base + b".rar", b"Rar" + bytes(200))
         files.append(("rar", b"-x" + base + b".rar", [], 0))
 
@@ -395,6 +397,21 @@ def model_queries(ops, work):
     return lines, idx
 
 
+def py_decision(op, work, min_header):
+    try:
+        head = open(os.path.join(work.encode(), op.modpath), "rb").read(1024)
+    except OSError:
+        head = b""
+    if op.entry != "path" or len(head) < max(min_header, 3):
+        return ("notpacked", [])
+    if head[:3] == b"MO3":
+        return ("external", [b"unmo3", b"-s", op.modpath, b"STDOUT"])
+    if head[:3] == b"Rar":
+        return ("external", [b"unrar", b"p", b"-inul", b"-xreadme", b"-x*.diz", b"-x*.nfo", b"-x*.txt", b"-x*.exe", b"-x*.com",
+                             op.modpath])
+    return ("notpacked", [])
+
+
 def run_opens(ck):
     quick = ck.tier == "quick"
     exe = vlib.build_harness("c10_opens", ["c10_opens.c"], extra=EXTRA)
@@ -423,7 +440,7 @@ def run_opens(ck):
                              "load harness aborted (rc=%d): %s" % (rc, sig))
             # the model's view
             lines, idx = model_queries(ops, work)
-            mo = vlib.run_driver("drv_c10", "\n".join(lines) + "\n") if ck.lean_ok else None
+            mo = vlib.run_driver("drv_c10", "\n".join(lines) + "\n") if ck.driver_ok else None
             model = {}
             if mo is not None:
                 for (oid, what), ans in zip(idx, mo):
@@ -432,6 +449,11 @@ def run_opens(ck):
                         model.setdefault(oid, {})[what] = (f[0], [unhex(x) for x in f[1:]])
                     else:
                         model.setdefault(oid, {})[what] = [unhex(x) for x in f[1:]]
+            if mo is None:
+                # model driver unavailable (the Lean build itself is broken): judge helper spawns by the
+                # property's own wording so that the oracle keeps working
+                for op in ops:
+                    model.setdefault(op.id, {})["decision"] = py_decision(op, work, getattr(ck, "min_header", 0))
             for op in ops:
                 for phase in ("test", "load"):
                     got = log.get((op.id, phase))
